@@ -43,13 +43,24 @@ from secsgem.hsms.connection_state_machine import ConnectionState  # noqa: E402
 logging.disable(logging.CRITICAL)
 
 WAIT = 20.0  # bound of every wait (seconds); never reached unless the endpoint hangs
-WAIT_AFTER_STALL = 3.0  # once an endpoint of this process has hung, later waits use this bound ...
+WAIT_AFTER_STALL = 4.0  # once an endpoint of this process has hung, later waits use this bound ...
 MAX_STALLS = 10  # ... and after this many hung histories the process stops replaying further ones (they are reported as skipped)
 STALLS = 0
 
 
+def load_factor() -> float:
+    """every wait of this harness is on a logical condition (a counter around the library call, a queue, a thread having ended); the
+    bound only decides when a missing answer is called a hang.  It stretches with the machine load, so that library threads which merely
+    have not been scheduled yet are not mistaken for a hang (1 x on an idle machine, up to 8 x)."""
+    try:
+        per_cpu = os.getloadavg()[0] / (os.cpu_count() or 1)
+    except OSError:
+        per_cpu = 0.0
+    return min(8.0, max(1.0, 2.0 * per_cpu))
+
+
 def bound() -> float:
-    return WAIT if STALLS == 0 else WAIT_AFTER_STALL
+    return (WAIT if STALLS == 0 else WAIT_AFTER_STALL) * load_factor()
 CTR0 = 1000  # the system counter every run starts from (the real one is random)
 UNSOL = 4242  # system bytes that never match an open request
 FALLBACK = 77  # what a "matching" token resolves to when nothing is open (so it is unsolicited)
@@ -310,7 +321,8 @@ class Endpoint:
         th = self.owner.get(system)
         if th is not None:
             self.wait_for(lambda: system not in self.p._response_queues)
-            th.join(bound())
+            # the requester then ends (a linktest-timer requester re-arms its timer first): part of this step's effects
+            self.wait_for(lambda: not th.is_alive())
 
     # ---- linktest timers
     def stored_timer_pending(self) -> bool:
@@ -691,7 +703,7 @@ def run_slow_handler(active: bool):
 
     def busy(data):
         if data["message"].header.system == 101:
-            gate.wait(WAIT)
+            gate.wait(600)  # released by the harness below in every path; never by the clock
     ep.p.events.message_received += busy
     ep.step("con")
     ep.step("rx.selreq.4242.0")
@@ -715,6 +727,7 @@ def run_slow_handler(active: bool):
            "ev": [x[1] for x in got if x[0] == "ev"], "dl": [(x[1], x[2]) for x in got if x[0] == "dl"],
            "err": [x[1] for x in got if x[0] == "err"], "stall": ep.stalled, "open_before": {}, "closing": False}
     line = f"hsmsfsm run {'a' if active else 'p'} {CTR0} DD con,rx.selreq.4242.0,dat.1.1.1.101.1,pcl,datq.1.1.1.102.1"
+    gate.set()
     ep.cleanup()
     return line, rec, at_release
 
@@ -838,7 +851,7 @@ def main():
     drv = RetryDriver()
     big = a.tier == "thorough" or a.search
     workers = int(os.environ.get("VERIF_WORKERS", "0") or 0) or min(12 if a.tier == "thorough" else 8, os.cpu_count() or 1)
-    watchdog = threading.Timer(1500 if a.tier == "thorough" else 400, lambda: os._exit(3))
+    watchdog = threading.Timer(3000 if a.tier == "thorough" else 850, lambda: os._exit(3))  # below check.py's harness budget
     watchdog.daemon = True
     watchdog.start()
 
@@ -870,17 +883,35 @@ def main():
         thorough = a.tier == "thorough"
         depth_core = 4 if thorough else 3          # --search (a tie or proof broke) keeps the quick depths and widens the random part: <= 120 s
         deep_prefixes = PREFIXES[:2] if thorough else []   # NOT SELECTED and SELECTED: full alphabet to depth 3
+        srng = rng.fork("sampled-continuations")
         for active in (False, True):
-            for combo in itertools.product(CORE, repeat=depth_core):  # shorter histories are prefixes of these
-                histories.append((active, list(combo)))
+            if thorough:
+                for combo in itertools.product(CORE, repeat=depth_core):  # shorter histories are prefixes of these
+                    histories.append((active, list(combo)))
+            else:
+                # quick: every core history of length 3 that does not begin with `con` (those are continued exhaustively below with the full
+                # alphabet); before the first `con` only `con` does anything, so nothing is lost against the thorough tier but volume
+                for combo in itertools.product(CORE, repeat=depth_core):
+                    if combo[0] != "con" and "con" in combo:
+                        histories.append((active, list(combo)))
             for pre in PREFIXES:
-                # quick: depth 2 after the four session states (open, selected, each also closing), depth 1 after the two api prefixes
-                depth = 3 if pre in deep_prefixes else (2 if (thorough or pre in PREFIXES[:4]) else 1)
+                if pre in deep_prefixes:
+                    depth = 3
+                elif thorough or pre in PREFIXES[:2]:
+                    depth = 2            # NOT SELECTED and SELECTED: every continuation of length 2 over the full alphabet
+                else:
+                    depth = 1            # quick, the closing / api prefixes: every single continuation, and a seeded sample of the pairs
                 for combo in itertools.product(FULL, repeat=depth):
                     histories.append((active, pre + list(combo)))
-        res.exhaustive_parts.append(f"all {len(CORE)}^{depth_core} histories over the core alphabet from the initial state, active and passive")
-        res.exhaustive_parts.append(f"all {len(FULL)}^2 continuations over the full alphabet after each of {len(PREFIXES) if thorough else 4} prefixes"
-                                    + (f" ({len(FULL)}^3 after {deep_prefixes})" if deep_prefixes else "") + ", active and passive")
+                if depth == 1:
+                    for _ in range(250):
+                        histories.append((active, pre + [srng.choice(FULL), srng.choice(FULL)]))
+        res.exhaustive_parts.append((f"all {len(CORE)}^{depth_core} histories over the core alphabet from the initial state" if thorough else
+                                     f"all histories of length {depth_core} over the core alphabet that contain `con` but do not start with it")
+                                    + ", active and passive")
+        res.exhaustive_parts.append(f"all {len(FULL)}^2 continuations over the full alphabet after each of {len(PREFIXES) if thorough else 2} prefixes"
+                                    + (f" ({len(FULL)}^3 after {deep_prefixes})" if deep_prefixes else f"; all {len(FULL)} single continuations + 250 seeded pairs after the other {len(PREFIXES) - 2}")
+                                    + ", active and passive")
         histories += gen_random(rng, 3000 if big else 500)
         histories += gen_queued(rng.fork("queued"), 1500 if big else 250, big)
         res.exhaustive_parts.append(f"dispatch of a queued data block ({len(QUEUED)} flavours) as last input after each of {len(QPREFIXES)} prefixes "
